@@ -8,7 +8,12 @@ Model/Pool.lean — the pool protocol of the codec wrappers (compress/*/*.go) as
   `acquire sel` ↔ `NewWriter`/`NewReader`: `pool.Get()` returned object `sel` (one occurrence is removed; or nothing → a new object), then Reset
   `close h`     ↔ `(*writer).Close`: `if x := w.xerialWriter; x != nil { w.xerialWriter = nil; Flush; Reset(nil); Put(x) }`
                  — idempotent because the wrapper forgets the object
-  `closeKeep h` ↔ the same WITHOUT `w.xerialWriter = nil` (seeded defect C16-m2): used only for the counterexample
+                 The event is atomic w.r.t. the object because Reset precedes Put and Put is the LAST statement
+                 that touches the object (extracted per codec on every run: Gen/CodecClose.lean, `gen_close_order`).
+  `touch h`     ↔ any use of the object through a live wrapper (Read / Write / Reset)
+  `closeKeep h` ↔ Close WITHOUT `w.xerialWriter = nil` (seeded defect C16-m2): used only for a counterexample
+  `putKeep h`, `touchDangling x` ↔ Close that Puts first and Resets afterwards through a local variable (seeded
+                 defect C16-m4): after `putKeep` the closer still holds a dangling reference; used only for a counterexample
 -/
 namespace KV.Model.Pool
 
@@ -16,6 +21,7 @@ structure PState where
   pool : List Nat
   handles : List (Option Nat)
   fresh : Nat
+  dangling : List Nat := []
   deriving DecidableEq, Repr
 
 inductive PEv where
@@ -23,9 +29,12 @@ inductive PEv where
   | close (h : Nat)
   | closeKeep (h : Nat)
   | drop (x : Nat)
+  | touch (h : Nat)
+  | putKeep (h : Nat)
+  | touchDangling (x : Nat)
   deriving DecidableEq, Repr
 
-def init : PState := ⟨[], [], 0⟩
+def init : PState := ⟨[], [], 0, []⟩
 
 def step (s : PState) : PEv → Option PState
   | .acquire none => some { s with handles := s.handles ++ [some s.fresh], fresh := s.fresh + 1 }
@@ -43,6 +52,15 @@ def step (s : PState) : PEv → Option PState
     | some (some x) => some { s with pool := x :: s.pool }
   | .drop x =>
     if x ∈ s.pool then some { s with pool := s.pool.erase x } else none
+  | .touch h =>
+    match s.handles[h]? with
+    | some (some _) => some s
+    | _ => none
+  | .putKeep h =>
+    match s.handles[h]? with
+    | some (some x) => some { s with handles := s.handles.set h none, pool := x :: s.pool, dangling := x :: s.dangling }
+    | _ => none
+  | .touchDangling x => if x ∈ s.dangling then some s else none
 
 def run (s : PState) : List PEv → Option PState
   | [] => some s
@@ -53,11 +71,14 @@ def run (s : PState) : List PEv → Option PState
 /-- objects wrapped by live (unclosed) handles -/
 def live (s : PState) : List Nat := s.handles.filterMap id
 
-/-- the faithful protocol never uses `closeKeep` -/
-def faithful : List PEv → Bool
-  | [] => true
-  | .closeKeep _ :: _ => false
-  | _ :: es => faithful es
+/-- events of the code as it is (no `closeKeep`, no Put-before-Reset) -/
+def faithfulEv : PEv → Bool
+  | .closeKeep _ => false
+  | .putKeep _ => false
+  | .touchDangling _ => false
+  | _ => true
+
+def faithful (es : List PEv) : Bool := es.all faithfulEv
 
 /-- number of places where object `x` currently is: pool entries + live handles wrapping it -/
 def occ (s : PState) (x : Nat) : Nat := s.pool.count x + (live s).count x
